@@ -160,7 +160,9 @@ def run_case(case):
             # in the second process the twin grid (same size, end points, degree, log mode; other interior nodes) is served FIRST:
             # a process-wide memo that cannot tell the two grids apart now pollutes the reference itself
             try:
-                yad.Runner(th, cards.observables(request(names[:1], pts[:2]), xgrid=cards.warp_grid(g["xgrid"]), deg=g["deg"], is_log=g["is_log"], **case["obs"])).get_result()
+                # (with the LAST observable of the request, so that lazily initialised process-wide state is first touched by another
+                # observable than in the first process)
+                yad.Runner(th, cards.observables(request(names[-1:], pts[:2]), xgrid=cards.warp_grid(g["xgrid"]), deg=g["deg"], is_log=g["is_log"], **case["obs"])).get_result()
             except ValueError:
                 pass
         ref_out = yad.Runner(th, mkobs(request(names, pts))).get_result()
